@@ -9,9 +9,10 @@ import time
 
 VERIF = os.path.dirname(os.path.dirname(os.path.abspath(__file__)))
 REPO = os.environ.get("INFOCF_REPO", "/repo")
-EVIDENCE = os.path.join(VERIF, "evidence")
-REPLAYS = os.path.join(VERIF, "replays")
-BUILD = os.path.join(VERIF, "build")
+# the registered commands always use /verif/evidence, /verif/replays, /verif/build; bin/selftest redirects them to scratch
+EVIDENCE = os.environ.get("VERIF_EVIDENCE_DIR", os.path.join(VERIF, "evidence"))
+REPLAYS = os.environ.get("VERIF_REPLAYS_DIR", os.path.join(VERIF, "replays"))
+BUILD = os.environ.get("VERIF_BUILD_DIR", os.path.join(VERIF, "build"))
 KNOWN = os.path.join(VERIF, "known_findings.json")
 
 
